@@ -27,11 +27,27 @@ class Result:
 
 
 def reset_config():
+    """The state a fresh CLI process has. The exclusion container is emptied in place (whatever its type is), as a new
+    process would find it; it is only re-created if it cannot be emptied."""
     from codelimit.common.Configuration import Configuration
 
-    Configuration.exclude = []
+    try:
+        Configuration.exclude.clear()
+    except AttributeError:
+        Configuration.exclude = []
     Configuration.verbose = False
     Configuration.repository = None
+
+
+def add_excludes(patterns):
+    """What `--exclude a --exclude b` does in codelimit.__main__ (extend the class-level container)."""
+    from codelimit.common.Configuration import Configuration
+
+    ex = Configuration.exclude
+    if hasattr(ex, "extend"):
+        ex.extend(patterns)
+    else:
+        ex.update(patterns)
 
 
 @contextlib.contextmanager
@@ -79,7 +95,7 @@ def run_check(cwd, paths, quiet=False, excludes=()):
     def fn():
         reset_config()
         if excludes:
-            Configuration.exclude.extend(excludes)
+            add_excludes(excludes)
         Configuration.load(Path("."))
         check_command([Path(p) for p in paths], quiet)
 
@@ -95,7 +111,7 @@ def run_scan(cwd, path=".", excludes=()):
     def fn():
         reset_config()
         if excludes:
-            Configuration.exclude.extend(excludes)
+            add_excludes(excludes)
         Configuration.load(Path(path))
         scan_command(Path(path))
 
